@@ -183,16 +183,18 @@ Record cfg := { heap_cap : N; snod_cap : N; soft_max : N;
      every value, the tie reads the values from the source (tools/props/c03unit.py: source_cfg) *)
   strict_names : bool;      (* linkToParent refuses empty names and names with a NUL byte *)
   canon_group_key : bool;   (* CreateGroup trims one trailing slash before parsing / registering *)
-  rc_rollback_fix : bool    (* writeV2RefCount also updates an existing RefCount message when the count is 1 *)
+  rc_rollback_fix : bool;   (* writeV2RefCount also updates an existing RefCount message when the count is 1 *)
+  cycle_is_error : bool     (* reader: a link to an object that is being loaded is an error (true in the tree as it
+                               is); false = candidate repair notes/fixes/reader-link-to-enclosing-group.patch *)
 }.
 (* the tree before any of the three repairs *)
 Definition base_cfg : cfg := {| heap_cap := 256; snod_cap := 32; soft_max := 244; max_depth := 1024;
-                                strict_names := false; canon_group_key := false; rc_rollback_fix := false |}.
+                                strict_names := false; canon_group_key := false; rc_rollback_fix := false; cycle_is_error := true |}.
 (* /repo as it is now: the three repairs are in (4d95b56 trailing slash, and the commits "reject empty link
    names ...", "restore the stored reference count ..."); the tie does not use this definition, it reads
    the switches from the source *)
 Definition go_cfg : cfg := {| heap_cap := 256; snod_cap := 32; soft_max := 244; max_depth := 1024;
-                              strict_names := true; canon_group_key := true; rc_rollback_fix := true |}.
+                              strict_names := true; canon_group_key := true; rc_rollback_fix := true; cycle_is_error := true |}.
 
 (* heap-level well-formedness of a link name: non-empty, no NUL byte *)
 Definition heap_name_ok (n : name) : bool :=
@@ -403,7 +405,7 @@ Fixpoint load_object (fuel : nat) (c : cfg) (w : wstate) (anc : list N) (vis : l
   match fuel with
   | O => None
   | S f =>
-    if nmem id anc then None else
+    if nmem id anc then (if cycle_is_error c then None else Some (TNode id KGroup [], vis)) else
     if max_depth c <=? blen anc then None else
     match alookup id (objects w) with
     | None => None
